@@ -50,3 +50,8 @@ func lemmaBlockInfoRoundTrip(x BlockInfo) (y BlockInfo, r *Reader, err error) {
 // consequence of the uvAt axioms as a fact at every append; here it is proved from the axioms.)
 func lemmaUvAtStable(s, t []byte, p, n int, x uint64) {
 }
+
+// lemmaUvAtCopy: n bytes of s starting at so were copied to t starting at to; a varint image lying
+// inside the copied window of s is a varint image of the same value at the translated place in t.
+func lemmaUvAtCopy(s, t []byte, so, to, n, p int, x uint64) {
+}
